@@ -31,6 +31,15 @@ GenNextFocus ==
           Reply(a, t, out, new, old) /\ h' = Append(h, [ev |-> "Reply", alg |-> a, t |-> t, out |-> out, new |-> new, old |-> old])
     \/ \E S \in {{}, {A1}} : Reload(S) /\ h' = Append(h, [ev |-> "Reload", S |-> S])
 GenSpecFocus == GenInit /\ [][GenNextFocus]_gvars
+(* lean variant for deep two-target histories: requests for {T2} or both targets, replies either succeed with
+   nothing new or fail -- the interleavings of release, failure (purge) and late results across two targets *)
+GenNextLean ==
+    \/ \E a \in Alg, T \in {{"T2"}, {"T1", "T2"}} :
+          Run({a}, T) /\ h' = Append(h, [ev |-> "Run", S |-> {a}, T |-> T])
+    \/ Tick /\ h' = Append(h, [ev |-> "Tick"])
+    \/ \E a \in Alg, t \in Tg, out \in {"success", "failure"} :
+          Reply(a, t, out, {}, FALSE) /\ h' = Append(h, [ev |-> "Reply", alg |-> a, t |-> t, out |-> out, new |-> {}, old |-> FALSE])
+GenSpecLean == GenInit /\ [][GenNextLean]_gvars
 View == vars
 ProgJson == [kind |-> prog.kind, ins |-> prog.ins, vals |-> prog.vals]
 Emit == PrintT(<<"SCHED", ToJson([prog |-> ProgJson, h |-> h'])>>)
